@@ -22,3 +22,13 @@ impl Rng {
     pub fn next(&mut self) -> u64 { let mut x = self.0; x ^= x << 13; x ^= x >> 7; x ^= x << 17; self.0 = x; x }
     pub fn below(&mut self, n: u64) -> u64 { if n == 0 { 0 } else { self.next() % n } }
 }
+
+/// one tokio worker, temp dirs in /dev/shm: test repositories and table stores are created by the thousand
+pub fn fast_env() {
+    // SAFETY: called at the start of `run`, before any other thread exists
+    unsafe {
+        if std::env::var_os("TOKIO_WORKER_THREADS").is_none() { std::env::set_var("TOKIO_WORKER_THREADS", "1"); }
+        if std::env::var_os("CEX_KEEP_TMPDIR").is_none() && std::path::Path::new("/dev/shm").is_dir() { std::env::set_var("TMPDIR", "/dev/shm"); }
+    }
+}
+
